@@ -289,12 +289,15 @@ func (c *reusableConn) closeWithErr(err error) {
 	if err == nil {
 		err = net.ErrClosed
 	}
-	c.closeOnce.Do(func() {
-		c.t.m.Lock()
-		delete(c.t.conns, c)
-		delete(c.t.idleConns, c)
-		c.t.m.Unlock()
+	// Remove c from the pool before closing it. This must not happen inside
+	// closeOnce: ReuseConnTransport.Close() holds t.m while it waits for
+	// closeOnce in closeWithErrByTransport, which would deadlock.
+	c.t.m.Lock()
+	delete(c.t.conns, c)
+	delete(c.t.idleConns, c)
+	c.t.m.Unlock()
 
+	c.closeOnce.Do(func() {
 		c.closeErr = err
 		c.c.Close()
 		close(c.closeNotify)
